@@ -10,6 +10,7 @@ Binding:
  (B2) the geometry of every laid-out table (column positions/widths, row positions/heights, border box of every cell, table
       box, border spacing; 1/64 px) is written to an ndjson trace that TLC validates with TableGridTrace.tla; every clause
       that fails is a disagreement named after the clause.
+Variants: two-value border-spacing (horizontal, vertical) and a header row group.
 """
 import collections
 import json
